@@ -256,7 +256,9 @@ where
         self.on_population(population, should_log_population, should_track_population);
 
         let elapsed = self.time.elapsed_secs() as usize;
-        let speed = generations as Float / self.time.elapsed_secs_as_float();
+        // NOTE: no time can be elapsed on a coarse timer: keep the value finite, otherwise it is serialized as null
+        let elapsed_secs = self.time.elapsed_secs_as_float();
+        let speed = if elapsed_secs > 0. { generations as Float / elapsed_secs } else { 0. };
 
         self.log(format!("[{elapsed}s] total generations: {generations}, speed: {speed:.2} gen/sec",).as_str());
         match population.ranked().next() {
